@@ -8,7 +8,8 @@ PROPS = "Properties_C02"
 RULE = ("tree states built by random insert/remove histories at page sizes 64/128/256/4096; per state: lower_bound "
         "with the tree comparator and with a wildcard comparator (key/16) for every stored key and every gap "
         "(below min .. above max), suffix walks from lower bounds, iter_equals on sampled position pairs; and for "
-        "sampled states one case per stored element removing exactly that element (next iterator); non-trivial = "
+        "sampled states one case per stored element removing exactly that element (next iterator); plus maximal trees AT "
+        "the capacity of page size 64 (fills continued past the first OVERFLOW; tolerant Python spec); non-trivial = "
         "case with at least one probe or a removal on a tree of height >= 2; distinct case strings counted")
 ASSUMPTIONS = [
     "search comparators are compatible with the tree order (monotone along it); the wildcard used by the driver "
@@ -89,7 +90,32 @@ def gen(ctx, seed, tier):
                     cases.append("%d 2 %s r%d w" % (page, " ".join(base), k))
                 # absent key: next is unconstrained, tree unchanged
                 cases.append("%d 2 %s r%d w" % (page, " ".join(base), (max(h.keys) + 2) if h.keys else 3))
+    if seed == ctx.seed:
+        cases += cap_states(ctx.rng("cap", seed), 3 if quick else 8)
     return cases
+
+
+def cap_states(r, n_perm):
+    """states AT the capacity of page size 64: fills (ascending, descending, permuted) that continue until well after
+    insert answers OVERFLOW, i.e. maximal trees of exactly ZIX_BTREE_MAX_HEIGHT levels with a full root; then every
+    key and gap probed, suffix walks, iter_equals, and one removal (with next) per sampled element.  Flags '2n': the
+    spec of these cases is the tolerant Python spec (insert may answer OVERFLOW at or above the cap)."""
+    out = []
+    fills = [list(range(1, 560)), list(range(559, 0, -1))]
+    for _ in range(n_perm):
+        ks = list(range(1, 700))
+        r.shuffle(ks)
+        fills.append(ks)
+    for ks in fills:
+        base = " ".join("i%d.%d" % (k, j + 1) for j, k in enumerate(ks))
+        lo, hi = min(ks) - 1, max(ks) + 1
+        probes = ["b%d" % k for k in range(lo, hi + 1)] + ["p%d" % k for k in range(lo, hi + 1, 3)]
+        probes += ["s%d" % k for k in r.sample(range(lo, hi + 1), 4)] + ["e"]
+        probes += ["f%d" % k for k in r.sample(ks, 40)]
+        out.append("64 2n %s w %s" % (base, " ".join(probes)))
+        for k in r.sample(ks, 24):
+            out.append("64 2n %s r%d w e" % (base, k))
+    return out
 
 
 def targeted(ctx):
@@ -132,7 +158,13 @@ untokens.head = "64 2"
 
 
 def l1_extra(case, impl_obs):
-    return not impl_obs.startswith("CRASH") and not impl_obs.startswith("ASSERT-BUILD-DIFFERS")
+    if impl_obs.startswith("CRASH") or impl_obs.startswith("ASSERT-BUILD-DIFFERS"):
+        return False
+    if "n" in case.split()[1]:
+        # states at the capacity (flags '2n': the spec line is '*'): the sorted-list spec is evaluated here, tolerant
+        # only about insert answering OVERFLOW once the size has reached cap(page)
+        return bt.tolerant_spec_ok(case, impl_obs)
+    return True
 
 
 def stats(cases, impl):
